@@ -13,7 +13,7 @@ import RSSched.Props.C10Tours
 import RSSched.Props.C09Insert
 namespace RSSched.C09T
 open RSSched Schedule Network Tour Spec C15 C02 C10L C09C
-open C10T hiding TourOK insert_tourOK remove_tourOK new_tourOK replaceStartDepot_tourOK replaceEndDepot_tourOK
+open RSSched.C10T hiding TourOK insert_tourOK remove_tourOK new_tourOK replaceStartDepot_tourOK replaceEndDepot_tourOK
 
 /-- the two network hypotheses of the tour-cache theorems -/
 def Net9 (nw : Network) : Prop := C09.DurFinite nw ∧ C09.DepotDistZero nw
@@ -43,7 +43,8 @@ theorem last_isEnd {nw : Network} {t : Tour} (ht : C10T.TourOK nw t) :
   obtain ⟨sd, mid, ed, hl, _, hed, _, _⟩ := ht.shape
   rw [hl]
   have : (sd :: (mid ++ [ed])).getLastD 0 = ed := by
-    rw [List.getLastD_eq_getLast?, C10D.getLast?_cas]; rfl
+    rw [show sd :: (mid ++ [ed]) = (sd :: mid) ++ [ed] by simp, List.getLastD_eq_getLast?, List.getLast?_append]
+    simp
   rw [this]; exact hed
 
 theorem replaceStartDepot_tourOK (nw : Network) (t t' : Tour) (d : Nat) (ht : TourOK nw t)
@@ -280,9 +281,9 @@ theorem fitLoop_recvOK (nw : Network) (hd : C17.DepotTimes nw) (hw : NodesWF' nw
       exact ih _ _ _ _ _ _ _ h (insert_tourOK nw hd hw _ _ _ _ hr
         ⟨chain_of_neg hneg, (removed_facts (by assumption)).1⟩ (by assumption)))
 
-syntax "prep_goals " ident : tactic
+syntax "prep_goals9 " ident : tactic
 macro_rules
-  | `(tactic| prep_goals $h:ident) => `(tactic|
+  | `(tactic| prep_goals9 $h:ident) => `(tactic|
     (all_goals (try contradiction)
      all_goals (try (cases $h:ident))
      all_goals (try (simp only [pure, Except.pure, Except.ok.injEq] at *))
@@ -293,7 +294,7 @@ theorem spawn_toursOK {nw : Network} {s s' : Schedule} {vt : Nat} {path : List N
     (ho : ToursOK nw s.tours) (h : spawnVehicleForPath nw s vt path = .ok (s', v)) : ToursOK nw s'.tours := by
   unfold spawnVehicleForPath at h
   inv_do h
-  prep_goals h
+  prep_goals9 h
   all_goals (first
     | exact toursOK_set ho (new_tourOK nw _ _ (by assumption))
     | trace_state)
@@ -302,7 +303,7 @@ theorem delete_toursOK {nw : Network} {s s' : Schedule} {v : Veh}
     (ho : ToursOK nw s.tours) (h : replaceVehicleByDummy nw s v = .ok s') : ToursOK nw s'.tours := by
   unfold replaceVehicleByDummy at h
   inv_do h
-  prep_goals h
+  prep_goals9 h
   all_goals (first
     | exact toursOK_erase ho
     | trace_state)
@@ -325,7 +326,7 @@ theorem addPath_toursOK {nw : Network} (hd : C17.DepotTimes nw) (hw : NodesWF' n
     (h : addPathToVehicleTour nw s v path = .ok (s', rm)) : ToursOK nw s'.tours := by
   unfold addPathToVehicleTour at h
   inv_do h
-  prep_goals h
+  prep_goals9 h
   all_goals (first
     | exact toursOK_set ho (insert_tourOK nw hd hw _ _ _ _ (ho _ _ (unwrapO_ok (by assumption))) hp (by assumption))
     | trace_state)
@@ -756,6 +757,6 @@ theorem C09_tourcaches_from_empty (nw : Network) (hdt : C17.DepotTimes nw) (hw :
 
 theorem net9_of_netHyps (nw : Network) (h : netHypsB nw = true) : Net9 nw := by
   have := C09.netHyps_sound nw h
-  exact ⟨this.1, this.2⟩
+  exact ⟨this.2, this.1⟩
 
 end RSSched.C09T
